@@ -203,3 +203,72 @@ func duplexAdversary(r *vf.Run, rnd *rand.Rand) {
 	r.Floor("duplex_race_child_rounds", int(r.Counter("duplex_race_child_rounds")), crounds)
 	r.Floor("duplex_race_child_frames_presented", int(r.Counter("duplex_race_child_frames_presented")), crounds*20)
 }
+
+// deferredReaders: the receiving side opens message N, and before it has read what Decrypt returned for it, it opens
+// message N+1 (a caller that still parses one message when the next arrives).  N+1 is genuine, or its last frame is
+// altered.  What was returned for N must read as N's plaintext, byte for byte, whatever happened to N+1: anything else
+// (N+1's leading frames, nothing at all) is plaintext released that is not the prefix of what the peer sent.
+func deferredReaders(r *vf.Run, rnd *rand.Rand) {
+	n := r.Pick(600, 6000)
+	bad := 0
+	for i := 0; i < n && bad < 5; i++ {
+		r.Eval()
+		var secret [32]byte
+		rnd.Read(secret[:])
+		acc, err := crypto.NewSecureSessionFromSharedKey(secret)
+		if err != nil {
+			r.Inconclusive("session constructor: " + err.Error())
+			return
+		}
+		c2a, _ := refctl.SessionKeys(secret[:])
+		fr := &refctl.Framer{Key: c2a}
+		lens := []int{1, 17, 1024, 1025, 2048, 2100, 3000}
+		p1 := make([]byte, lens[rnd.Intn(len(lens))])
+		p2 := make([]byte, lens[2+rnd.Intn(len(lens)-2)])
+		rnd.Read(p1)
+		rnd.Read(p2)
+		w1, w2 := fr.SealFrames(p1, nil), fr.SealFrames(p2, nil)
+		altered := i%2 == 0
+		if altered {
+			w2 = append([]byte{}, w2...)
+			w2[len(w2)-1-rnd.Intn(16)] ^= 1 << uint(rnd.Intn(8)) // the tag of the last frame
+		}
+		d1, e1 := acc.Decrypt(bytes.NewReader(w1))
+		if e1 != nil || d1 == nil {
+			r.Violation("deferred:control-rejected", fmt.Sprintf("a genuine message of %d bytes is rejected: %v", len(p1), e1), nil)
+			return
+		}
+		d2, e2 := acc.Decrypt(bytes.NewReader(w2))
+		got1, _ := ioutil.ReadAll(d1)
+		r.Count("deferred_reader_cases", 1)
+		r.Nontrivial(fmt.Sprintf("deferred/%d/%d/%v", len(p1), len(p2), altered))
+		wit := map[string]interface{}{"first_message_bytes": len(p1), "second_message_bytes": len(p2), "second_message_last_frame_altered": altered, "secret": vf.Hex(secret[:])}
+		if !bytes.Equal(got1, p1) {
+			bad++
+			what := "nothing"
+			if len(got1) > 0 && bytes.HasPrefix(p2, got1) {
+				what = fmt.Sprintf("the first %d bytes of the NEXT message", len(got1))
+			} else if len(got1) > 0 {
+				what = fmt.Sprintf("%d other bytes", len(got1))
+			}
+			r.Violation("deferred:earlier-message-replaced", fmt.Sprintf("what Decrypt returned for a message of %d bytes reads as %s once the next message (%d bytes, last frame altered: %v, error %v) has been opened", len(p1), what, len(p2), altered, e2), wit)
+			continue
+		}
+		if altered {
+			var got2 []byte
+			if d2 != nil {
+				got2, _ = ioutil.ReadAll(d2)
+			}
+			if e2 == nil || len(got2) > 0 && !bytes.HasPrefix(p2, got2) {
+				bad++
+				r.Violation("deferred:altered-accepted", fmt.Sprintf("a message whose last frame is altered is opened without an error (%v) or releases other bytes", e2), wit)
+			}
+		} else if d2 != nil {
+			if got2, _ := ioutil.ReadAll(d2); e2 != nil || !bytes.Equal(got2, p2) {
+				bad++
+				r.Violation("deferred:later-message-wrong", fmt.Sprintf("the second genuine message reads as %d bytes, error %v", len(got2), e2), wit)
+			}
+		}
+	}
+	r.Floor("deferred_reader_cases", int(r.Counter("deferred_reader_cases"))+100000*bad, n)
+}
